@@ -7,4 +7,5 @@ for pid in "$@"; do
   (cd /verif && timeout 1800 ./check "$pid" --tier quick 2>&1 | grep -E "VIOLATION|\[done\]|\[proof\]|INFRA" | head -6)
 done
 git -C /repo checkout -- .
+(cd /verif && python3 harness/extract.py >/dev/null 2>&1)   # the generated Lean files must describe the restored tree again
 git -C /repo status --short | grep -v '^??' | head -2
